@@ -10,6 +10,9 @@ VERIF = os.path.dirname(os.path.dirname(os.path.abspath(__file__)))
 REPO = os.environ.get("CFI_REPO", "/repo")
 WORK = os.path.join(VERIF, "work")
 DRIVER = os.path.join(WORK, "driver")
+# per-run scratch (replays, temp dirs, kernel case files); a separate one lets background sweeps run beside the checks
+SCRATCH = os.environ.get("VERIF_SCRATCH", WORK)
+EVIDENCE = os.environ.get("VERIF_EVIDENCE_DIR", os.path.join(VERIF, "evidence"))
 COQDIR = os.path.join(VERIF, "coq")
 
 
@@ -32,7 +35,7 @@ def pin_environment():
     for m in pkgutil.walk_packages(cfinterface.__path__, "cfinterface."):
         importlib.import_module(m.name)
     import pandas, numpy, datetime, re, io, struct  # noqa
-    empty = os.path.join(WORK, "cwd")
+    empty = os.path.join(SCRATCH, "cwd")
     os.makedirs(empty, exist_ok=True)
     os.chdir(empty)          # contents are never mistaken for existing file names
 
@@ -187,7 +190,7 @@ def _parse_coq_sx(text):
 
 def run_model_in_coq(entry, args, tag):
     """Evaluate the same entry point inside Coq with vm_compute (cross-check of extraction+driver)."""
-    d = os.path.join(WORK, "kernel")
+    d = os.path.join(SCRATCH, "kernel")
     os.makedirs(d, exist_ok=True)
     path = os.path.join(d, "cases_%s.v" % tag)
     with open(path, "w") as f:
